@@ -775,4 +775,49 @@ func TestC19HttpE2E(t *testing.T) {
 		go srvC.Close()
 	}
 	idx++
+
+	// What Write says when the far end did NOT take the envelope. httpReadWriter.Write looks at the transport
+	// error of the POST only, never at the status of the answer: (a) the far end answers 503 because the
+	// connection the request was parked on is removed by the idle cleaner before anybody read it; (b) the far
+	// end answers 400 because it cannot map the envelope's source. In both the well-formed envelope is gone for
+	// good and the sender is told nothing (Write = nil). The property's "written on one end is read on the
+	// other" has no room for that; the model makes the far end the environment of a Write (HPostResult), so it
+	// says nothing either way. Recorded as finding http-write-ignores-status (not repaired in /repo for now:
+	// see docs/notes-tr.md).
+	for _, variant := range []string{"503-removed-while-parked", "400-unmappable-source"} {
+		if want(idx) {
+			em.Marker("begin", idx)
+			fc := clockwork.NewFakeClockAt(time.Unix(trEpoch, 0))
+			gohD := goat.NewGoatOverHttp(func(string, goat.RpcReadWriter) {}, func(string) (string, error) {
+				if variant == "400-unmappable-source" {
+					return "", errors.New("unknown source")
+				}
+				return "sender:1", nil
+			}, goat.WithClock(fc), goat.WithConnectionCleanupInterval(time.Second), goat.WithConnectionTimeout(time.Second))
+			srvD := httptest.NewServer(gohD)
+			conn := gohA.NewConnection(strings.TrimPrefix(srvD.URL, "http://"))
+			done := make(chan error, 1)
+			go func() {
+				done <- conn.Write(context.Background(), &Rpc{Id: 9, Header: &goatorepo.RequestHeader{Method: "/s/m", Source: "A", Destination: "srv"},
+					Body: &goatorepo.Body{Data: []byte("lost?")}})
+			}()
+			var werr error
+			for waiting := true; waiting; { // the fake clock moves on until the far end has answered; the pause only paces the loop
+				fc.Advance(2 * time.Second)
+				select {
+				case werr = <-done:
+					waiting = false
+				case <-time.After(2 * time.Millisecond):
+				}
+			}
+			em.Emit(Rec{Idx: idx, Kind: "http-write-refused", Desc: map[string]any{"variant": variant, "what": "the far end answers " + variant[:3] + " and does not deliver; nobody ever reads the envelope"},
+				Obs: map[string]any{"write_err": fmt.Sprint(werr)},
+				Coq: fmt.Sprintf("CAssert 3 %s", coqBool(werr != nil)), Tags: []string{"http:write-refused", "sig:http-write-ignores-status"}})
+			em.Marker("end", idx)
+			gohD.Cancel()
+			srvD.CloseClientConnections()
+			go srvD.Close()
+		}
+		idx++
+	}
 }
